@@ -167,6 +167,8 @@ def apply(text, opts, kind='fn'):
         # R2
         if re.search(r'\bif\s+let\b[^{;]*&&', mask(text)):
             text = rule_R2(text, counts)
+        # R6: `Some(&x)` binder pattern -> `Some(x)`, later uses of x become (*x)
+        text = rule_R6(text, counts)
         # R3
         text = _sub(r'\btake\(([^()]*(?:\([^()]*\))?[^()]*)\)\(([^()]*)\)', r'take_n(\1, \2)', text, counts, 'R3')
         # R4
@@ -216,3 +218,19 @@ def rule_R4(text, counts, opts):
         text = text[:m.start()] + _keep_nl(old, new) + text[cl + 1:]
         counts['R4'] = counts.get('R4', 0) + 1
         pos = m.start() + len(new)
+
+
+def rule_R6(text, counts):
+    while True:
+        m = re.search(r'\b(Some|Ok)\(&([a-z_][A-Za-z0-9_]*)\)(?=\s*=[^=])', text)
+        if not m:
+            return text
+        name = m.group(2)
+        head = text[:m.start()] + '%s(%s)' % (m.group(1), name)
+        tail = text[m.end():]
+        # skip the `= expr` initializer up to the opening brace / `&&` / `;`
+        k = re.search(r'[{;]|&&', tail)
+        k = k.start() if k else 0
+        tail = tail[:k] + re.sub(r'(?<![A-Za-z0-9_.])%s(?![A-Za-z0-9_])' % re.escape(name), '(*%s)' % name, tail[k:])
+        text = head + tail
+        counts['R6'] = counts.get('R6', 0) + 1
